@@ -263,6 +263,10 @@ def handleAcc (j : Json) : Json :=
       match (arr? (getD a "subs")).bind (fun s => s.toList.mapM accOf) with
       | some ks => runHistory (zipOps ks) (fun z => z) (zipInit ks) st0 hist
       | none => err "bad zip"
+    | some "split_fc" =>
+      match (arr? (getD a "subs")).bind (fun s => s.toList.mapM accOf) with
+      | some ks => runHistory splitAccOps (fun z => z) (zipInit ks) st0 hist
+      | none => err "bad split_fc"
     | some "fcseq" =>
       -- FillComputeSeq(*steps, acc) as one accumulator
       match (arr? (getD a "steps")).bind (fun s => s.toList.mapM stepOf), accOf (getD a "term") with
